@@ -364,6 +364,12 @@ func c12Scribble(b []byte) string {
 	for i := range b {
 		b[i] = '#'
 	}
+	// the spare capacity of the very slice that was handed over, however little it is (an append
+	// that does not fit would move to a new array and touch nothing)
+	own := b[:cap(b)]
+	for i := len(b); i < len(own); i++ {
+		own[i] = '@'
+	}
 	b = append(b, "!!!!!!!!!!!!!!!!!!!!!!!!!!!!!!!!!!!!!!!!!!!!!!!!!!!!!!!!!!!!!!!!"...)
 	full := b[:cap(b)]
 	for i := range full {
